@@ -111,18 +111,28 @@ def api_cases(chk, tier):
     T = [thin(-1.0, 9.0, 1.0), thin(-6.0, 7.0, 1.0), thin(-3.0, 4.0, 1.0), thin(-1.0, 8.0, 1.0), thin(-8.0, 9.5, 0.5)]
     for i, j in ((0, 1), (1, 0), (2, 3), (3, 2), (4, 0), (1, 3)):
         out.append(("Mul", "f", T[i], T[j], ("thin-straddle", "thin-straddle"), (i + j) % 2 == 0))
+    # the Frechet combination requested explicitly while ANOTHER dependency is the ambient setting: still the Frechet result
+    for amb in "poi":
+        for op, kx, ky in (("Mul", "straddle", "straddle"), ("Mul", "straddle", "pos"), ("Mul", "neg", "straddle"), ("Div", "straddle", "pos"), ("Add", "pos", "straddle"), ("Sub", "neg", "pos")):
+            X = pbx.gen_bounds(rng, 200, kx, dy=rng.random() < 0.5)
+            Y = pbx.gen_bounds(rng, 200, ky, dy=rng.random() < 0.5)
+            out.append((op, "f", X, Y, (kx, ky, "ambient-" + amb), False, amb))
     return out
 
 
 def run_api(case):
     from pyuncertainnumber.pba.pbox_abc import Staircase
-    op, d, X, Y, _, bare = case
+    import contextlib
+    op, d, X, Y, _, bare = case[:6]
+    amb = case[6] if len(case) > 6 else None
     try:
         x, y = Staircase(np.array(X[0]), np.array(X[1])), Staircase(np.array(Y[0]), np.array(Y[1]))
         if bare:
             r = pbx.PYOPS[op](x, y)
         else:
-            r = {"Add": x.add, "Sub": x.sub, "Mul": x.mul, "Div": x.div}[op](y, dependency=d)
+            from pyuncertainnumber.pba.context import dependency as _dep
+            with (_dep(amb) if amb else contextlib.nullcontext()):
+                r = {"Add": x.add, "Sub": x.sub, "Mul": x.mul, "Div": x.div}[op](y, dependency=d)
         return ("ok", [float(v) for v in r.left], [float(v) for v in r.right])
     except Exception as e:
         return ("exc", pbx.exc_code(e), type(e).__name__ + ": " + str(e)[:100])
@@ -163,7 +173,7 @@ def api_reference(op, X, Y):
 
 
 def api_oracle(chk, case, out):
-    op, d, X, Y, kinds, bare = case
+    op, d, X, Y, kinds, bare = case[:6]
     rng = chk.rng
     ref = api_reference(op, X, Y)
     if ref == "zero":
